@@ -143,6 +143,142 @@ def replay_edges(ck, edges, geo):
     return n
 
 
+SIM_GEOMETRIES = [
+    dict(size=16, part=4, maxlen=4, attempts=2),
+    dict(size=12, part=3, maxlen=3, attempts=3),
+    dict(size=15, part=3, maxlen=2, attempts=2),
+    dict(size=20, part=4, maxlen=3, attempts=2),
+    dict(size=23, part=4, maxlen=4, attempts=3),
+]
+TRACE_CFG = '''SPECIFICATION TSpec
+CONSTANTS
+  Size = %(size)d
+  PartSize = %(part)d
+  MaxLen = %(maxlen)d
+  MaxAttempts = %(attempts)d
+  Variant = "trim"
+INVARIANT C16_WrittenIsPrefixInOrder
+INVARIANT C16_NextIsWrittenLength
+INVARIANT C16_ReleasedAsSoonAsContiguous
+INVARIANT C16_AllWrittenWhenAllPartsComplete
+INVARIANT C16_QueuedAhead
+CONSTRAINT Progress
+POSTCONDITION Final_
+CHECK_DEADLOCK FALSE
+'''
+
+
+def random_history(geo, rng):
+    """A delivery history by the rules of the property; every part is finally
+    delivered to its end by its last attempt."""
+    size, part = geo['size'], geo['part']
+    nparts = max(1, -(-size // part))
+    st = {p: {'att': 0, 'cur': p * part, 'done': False} for p in range(nparts)}
+    end = lambda p: min((p + 1) * part, size)
+    ev = []
+    # parts start in a random order, a window of them active at a time
+    pending = list(range(nparts))
+    rng.shuffle(pending) if rng.random() < 0.7 else None
+    active = []
+    while pending or active:
+        while pending and len(active) < rng.choice([2, 3, 4, nparts]):
+            active.append(pending.pop(0))
+        p = rng.choice(active)
+        s = st[p]
+        if s['att'] == 0:
+            s['att'] = 1
+            s['cur'] = p * part
+            ev.append({'k': 'begin', 'p': p})
+            continue
+        remaining = end(p) - s['cur']
+        if remaining == 0:
+            active.remove(p)
+            continue
+        # stop this attempt and start over (while attempts are left)
+        if s['att'] < geo['attempts'] and rng.random() < 0.25:
+            s['att'] += 1
+            s['cur'] = p * part
+            ev.append({'k': 'begin', 'p': p})
+            continue
+        ln = rng.randint(1, min(geo['maxlen'], remaining))
+        ev.append({'k': 'deliver', 'p': p, 'off': s['cur'], 'len': ln})
+        s['cur'] += ln
+    return ev
+
+
+def trace_part(ck, geo, num, rng):
+    """Random delivery histories -> real DeferQueue -> DeferQueue_Trace.tla."""
+    import os
+    import shutil
+    import tempfile
+    from s3transfer.download import DeferQueue
+    src = data_for(geo['size'])
+    traces, seen = [], set()
+    for i in range(num):
+        ev = random_history(geo, rng)
+        sig = json.dumps(ev)
+        if sig in seen:
+            continue
+        seen.add(sig)
+        q = DeferQueue()
+        bad = None
+        for e in ev:
+            e.setdefault('off', 0)
+            e.setdefault('len', 0)
+            e['out'] = []
+            if e['k'] == 'deliver':
+                got = q.request_writes(e['off'], src[e['off']:e['off'] + e['len']])
+                for w in got:
+                    if bytes(w['data']) != src[w['offset']:w['offset'] + len(w['data'])]:
+                        bad = f"write at {w['offset']} carries wrong bytes"
+                e['out'] = [[w['offset'], len(w['data'])] for w in got]
+        if bad:
+            ck.violation('C16_EachByteOnce', {'component': 'DeferQueue', 'geometry': geo,
+                                              'detail': bad, 'pattern': 'random-history'},
+                         replay={'kind': 'c16-dq', 'geometry': geo,
+                                 'requests': [[e['off'], e['len']] for e in ev if e['k'] == 'deliver']})
+            continue
+        traces.append({'id': len(traces), 'ev': ev})
+        ck.distinct(['dq-trace', geo, sig])
+    d = tempfile.mkdtemp(prefix='verif-c16t-')
+    try:
+        path = os.path.join(d, 'traces.ndjson')
+        with open(path, 'w') as f:
+            for t in traces:
+                f.write(json.dumps(t) + '\n')
+        r = tlc.run_tlc('DeferQueue_Trace', TRACE_CFG % geo, workers=1,
+                        env={'TRACE_FILE': path}, timeout=3000)
+    finally:
+        shutil.rmtree(d, ignore_errors=True)
+    ck.add_tlc(f'DeferQueue_Trace {geo} x{len(traces)}', r, exhaustive=False)
+    if r.violated:
+        ck.violation(r.violated[0], {'component': 'DeferQueue', 'geometry': geo,
+                                     'pattern': 'random-history',
+                                     'cex_tail': getattr(r, 'cex_full', r.cex)[-1500:]})
+        return len(traces)
+    reached = {}
+    for p in r.json_prints('DQTRACE '):
+        j = json.loads(p)
+        reached[j['id']] = (j['reached'], j['len'])
+    for t in traces:
+        rc = reached.get(t['id'])
+        if rc is None:
+            ck.machinery_errors.append('c16 trace without verdict')
+            break
+        if rc[0] <= rc[1]:
+            e = t['ev'][rc[0] - 1]
+            hist = [[x['off'], x['len'], x['out']] for x in t['ev'][:rc[0]] if x['k'] == 'deliver']
+            ck.violation('C16_ReleasedAsSoonAsContiguous', {
+                'component': 'DeferQueue', 'geometry': geo, 'pattern': 'random-history',
+                'detail': f'request ({e["off"]},{e["len"]}) returned {e["out"]}: not the '
+                          f'specified writes (event {rc[0]} of {rc[1]})',
+                'history_tail': hist[-8:]},
+                replay={'kind': 'c16-dq', 'geometry': geo,
+                        'requests': [[x['off'], x['len']] for x in t['ev'][:rc[0]]
+                                     if x['k'] == 'deliver']})
+    return len(traces)
+
+
 def _vals(x):
     if isinstance(x, dict):
         return list(x.values())
@@ -180,6 +316,10 @@ def run(tier, seed):
         if geo['size'] > 0 and r.coverage.get('Begin', (0, 0))[1] == 0:
             ck.machinery_errors.append('action Begin never taken')
         n += replay_edges(ck, edges, geo)
+    import random as _random
+    trng = _random.Random(seed * 31 + 16)
+    for geo in SIM_GEOMETRIES:
+        n += trace_part(ck, geo, 4000 if tier == 'thorough' else 800, trng)
     ck.coverage['traces_validated_against_impl'] = n
     ck.coverage['evaluations'] = n
     ck.coverage['exhaustive'] = True
